@@ -254,9 +254,9 @@ def r4_required_reaches_graph(chk: Check):
     tree = chk.tree
     f = tree.func("core.objects", "ConfigInformation.validate")
     loc = chk.loc(f.module, f.node)
-    helper = None
+    helper = tree.funcs.get("core.objects:ConfigInformation.validate.validate_value")
     for k, ff in tree.funcs.items():
-        if ff.parent is f:
+        if helper is None and ff.parent is f:
             helper = ff
     g = CFG(f.node)
     if helper is None:
@@ -288,7 +288,7 @@ def r4_required_reaches_graph(chk: Check):
         desc = [src(n.ast.iter) for n in loops_k]
         for n in loops_k:
             tgt = src(n.ast.target)
-            rec = [c for s2 in n.ast.body for c in walk_local(s2) if isinstance(c, ast.Call) and dotted(c.func) == helper.node.name]
+            rec = [c for s2 in n.ast.body for c in walk_local(s2) if isinstance(c, ast.Call) and tail(c) == helper.node.name]
             if src(n.ast.iter) == it_text and len(rec) == 1 and len(rec[0].args) == 1 and src(rec[0].args[0]) == tgt:
                 ok = True
         extra = " (iterating a dict yields its keys)" if kind == "dict" else ""
@@ -297,7 +297,7 @@ def r4_required_reaches_graph(chk: Check):
     loops = [n for n in g.live if n.kind == "for" and src(n.ast.iter) == "self.xpmtype.arguments.items()"]
     chk.require(len(loops) == 1, chk.fkey(f, "argument loop"), "validate must examine every declared argument", loc)
     if len(loops) == 1:
-        calls = [c for s in loops[0].ast.body for c in walk_local(s) if isinstance(c, ast.Call) and dotted(c.func) == helper.node.name]
+        calls = [c for s in loops[0].ast.body for c in walk_local(s) if isinstance(c, ast.Call) and tail(c) == helper.node.name]
         chk.require(len(calls) == 1, chk.fkey(f, "walks each value"), "every argument value must be walked for nested configurations", loc)
         # per-argument decision table: a value is walked; a missing required value without generator raises; nothing else leaves the iteration early
         lp = loops[0]
@@ -310,7 +310,7 @@ def r4_required_reaches_graph(chk: Check):
             return {"value is None": ("none", True), "argument.required": ("req", True), "argument.generator": ("gen", True)}.get(t)
 
         def events(n):
-            return ["walk" for c in n.calls() if dotted(c.func) == hname]
+            return ["walk" for c in n.calls() if tail(c) == hname]
 
         def stop(n):
             if n is lp:
